@@ -134,6 +134,36 @@ Example C03_pa_level_nonvacuous :
   pa_arg (PList [PInt (-12); PBool false]) (-12) false /\ pa_ok (-12) /\ pa_value 39 (-12) false = 34%N.
 Proof. split; [right; left; exists []; reflexivity|]. split; [right; left; reflexivity|reflexivity]. Qed.
 
+(* arc = count, ANY integer (clamped to 0..15): SETUP_RETR := arc_value cached count, whose low nibble is the clamped
+   count and whose high nibble (ARD) is the cached one;  ard = delta, ANY integer (clamped to 250..4000 us):
+   SETUP_RETR := ard_value cached delta, whose high nibble is (delta - 250) / 250 and whose low nibble (ARC) is the
+   cached one *)
+Theorem C03_arc_encoding : forall me count d w,
+  (me < length (radios w))%nat -> 0 <= d_retry_setup d <= 255 ->
+  exists d1 w1, set_arc (WB me) count d w = (Ok tt, d1, w1)
+    /\ cview (get_radio w1 me) = cset (cview (get_radio w me)) 4 (Z.to_N (arc_value (d_retry_setup d) count))
+    /\ (forall j, j <> me -> cview (get_radio w1 j) = cview (get_radio w j)).
+Proof. exact set_arc_world. Qed.
+Print Assumptions C03_arc_encoding.
+
+Theorem C03_arc_fields : forall cached count, 0 <= cached <= 255 ->
+  arc_value cached count mod 16 = Z.max 0 (Z.min count 15) /\ arc_value cached count / 16 = cached / 16.
+Proof. exact arc_value_fields. Qed.
+Print Assumptions C03_arc_fields.
+
+Theorem C03_ard_encoding : forall me delta d w,
+  (me < length (radios w))%nat -> 0 <= d_retry_setup d <= 255 ->
+  exists d1 w1, set_ard (WB me) delta d w = (Ok tt, d1, w1)
+    /\ cview (get_radio w1 me) = cset (cview (get_radio w me)) 4 (Z.to_N (ard_value (d_retry_setup d) delta))
+    /\ (forall j, j <> me -> cview (get_radio w1 j) = cview (get_radio w j)).
+Proof. exact set_ard_world. Qed.
+Print Assumptions C03_ard_encoding.
+
+Theorem C03_ard_fields : forall cached delta,
+  ard_value cached delta / 16 = (Z.max 250 (Z.min delta 4000) - 250) / 250 /\ ard_value cached delta mod 16 = cached mod 16.
+Proof. exact ard_value_fields. Qed.
+Print Assumptions C03_ard_fields.
+
 (* simulation: same result, same cached attributes (up to the status byte), same configuration of radio `me`,
    every other radio's configuration untouched -- for arbitrary arguments, valid or not *)
 Theorem C03_sim_setters : forall me,
